@@ -187,13 +187,22 @@ func c04Resend(c *Check, P string, r *GCRoles) {
 		rn2 := ReachEdge(*sw.nacked, cut)
 		ok := true
 		var wit []string
+		// "closed": the closed flag found set, or the subscription's closing signal found raised
+		closedOrClosing := append([]Edge{}, closedTrue...)
+		for _, si := range Selects(D) {
+			for _, cs := range si.Cases {
+				if !cs.Send && cs.Edge != nil && AllOrigins(cs.Chan, IsFieldLoad(r.SClosing)) {
+					closedOrClosing = append(closedOrClosing, *cs.Edge)
+				}
+			}
+		}
 		for _, ret := range Returns(D) {
-			if rn2[ret] && !GuardedBy(D, ret, closedTrue) {
+			if rn2[ret] && !GuardedBy(D, ret, closedOrClosing) {
 				ok = false
 				wit = append(wit, "return at "+c.P.Pos(ret.Pos())+" reachable from the Nack case without resending and without the subscription being closed")
 			}
 		}
-		c.Report(ok, P+".O2", "RESEND-UNLESS-CLOSED", D, sw.si.Sel.Pos(), k, "from the Nack case every path to the function's exit passes the send again or the subscription-closed check", wit...)
+		c.Report(ok, P+".O2", "RESEND-UNLESS-CLOSED", D, sw.si.Sel.Pos(), k, "from the Nack case every path to the function's exit passes the send again, the subscription-closed check or a case on the subscription's closing signal", wit...)
 		// … and only then: no other case of the wait (a timer, a default) leads back to the send
 		rs := ReachAfter(sw.si.Sel, NewCut().AddEdges(*sw.nacked))
 		again := false
